@@ -40,7 +40,7 @@ pub const PAUSE_SITES: &[u32] = &[
 ];
 
 pub fn draw_cfg(rng: &mut Rng, only: Option<&str>) -> Cfg {
-    let kinds: Vec<Kind> = chan::ALL_KINDS.iter().copied().filter(|k| only.map(|o| k.name() == o).unwrap_or(true)).collect();
+    let kinds: Vec<Kind> = chan::ALL_KINDS.iter().copied().filter(|k| only.map(|o| k.name() == o).unwrap_or(true)).filter(|k| !(cfg!(miri) && *k == Kind::MultiMmap)).collect();   // (Miri cannot interpret file-backed mmap)
     let kind = *rng.pick(&kinds);
     let cfgs: Vec<(usize, usize)> = chan::cfgs_for(kind, false).into_iter().filter(|(n, m)| *m <= 2 && (*n == 0 || *n <= 16)).collect();
     let (n, m) = *rng.pick(&cfgs);
